@@ -329,7 +329,7 @@ def harnesses(tier: str) -> List[H]:
             if tier == "quick":
                 nsched = 7 if ncalls == 2 else 4
             else:
-                nsched = 9
+                nsched = 9 if ncalls == 2 else 6
             for mode in range(3):
                 params = [I("s%d" % i, 0, ncalls - 1) for i in range(nsched)] + [B("v%d" % i) for i in range(ncalls)]
                 defaults = {"mode": mode, "v2": True}  # type: Dict[str, Any]
